@@ -273,6 +273,17 @@ def check(ctx):
     clr = [n for n in gd_.nodes if n.kind == 'stmt' and isinstance(n.ast, ast.Assign) and norm(n.ast.targets[0]) == 'self._is_link_open' and norm(n.ast.value) == 'False']
     ctx.inst('R5', sdc, 'link-loss-always-clears-open-flag', len(clr) == 1 and not gd_.fact_keys_at(clr[0]) and ('n', clr[0].id) in (gd_.dom().get(('n', gd_.exit.id)) or ()),
              'a lost link clears _is_link_open on every path (also while open_link is still waiting): open_link must then report the failure and the swarm closes every link')
+    # ... and open_link reports the failure exactly when the link is not open after the wait - judged by the open flag, not by
+    # whether an error text was recorded (a failure with an empty message is a failure)
+    sol = m.func('cflib/crazyflie/syncCrazyflie.py', 'SyncCrazyflie.open_link')
+    gso = cfg_of(sol)
+    waits = gso.find(lambda q: method_call(q, 'wait') and '_connect_event' in norm(q.func.value))
+    rs_ = [n_ for n_ in gso.nodes if n_.kind == 'raise' and waits and gso.dominates(waits[0][0], n_)]
+    okf = len(waits) == 1 and len(rs_) == 1 and {k_ for k_ in gso.fact_keys_at(rs_[0]) if 'is_link_open()' not in k_[0]} == {fact_key('self._is_link_open', False)} and \
+        gso.path_avoiding(waits[0][0], [gso.exit], avoid=[], avoid_edges=[e_ for n_ in gso.nodes for e_ in n_.succ
+                                                                          if any(f_.key() == fact_key('self._is_link_open', True) for f_ in e_.facts())]) is None
+    ctx.inst('R5', sol, 'failure-iff-link-not-open', okf, 'after the wait open_link raises iff _is_link_open is false (and returns normally only when it is true); guards of the raise %s' %
+             (sorted(gso.fact_keys_at(rs_[0])) if rs_ else 'raise after the wait not found'))
     ctx.inst('R5', ol, 'refuse-second-open', ok, 'open_links must start with `if self._is_open: raise`')
     sets = [n for n in go.nodes if n.kind == 'stmt' and isinstance(n.ast, ast.Assign) and norm(n.ast.targets[0]) == 'self._is_open'
             and isinstance(n.ast.value, ast.Constant) and n.ast.value.value is True]
